@@ -253,8 +253,33 @@ Comb(F(_, _), meth, a, b) ==
 RedOps == {"add", "multiply", "maximum", "minimum", "divide"}
 
 (* ------------------------------------------------------------------------ *)
+(* registries, carried scales, complex numbers                               *)
+(* ------------------------------------------------------------------------ *)
+\* A register carries the SI scale of its unit (sv, prime exponents x6) next to the symbol exponents (u): in unyt a Unit
+\* carries its own base_value, and two registries may give one symbol different sizes (yt: every dataset has its own
+\* code_length).  The predicates read the scale the object carries (result.units.base_value), never the symbol table.
+\* Registry 1 = unyt's default symbols + the custom atoms as in AtomPV; registry 2 = the same symbols, but
+\* xla = 2^2 (1 in registry 1), xlb = 2^-1 (2^5), xta = 2^3 (1); registry 3 = a plain UnitRegistry() (default symbols only).
+SZero == <<0, 0, 0, 0>>
+\* <<atom, log2 of its size in registry 2>> (exported to the harness; SV2 below is the same table, unrolled)
+Reg2Atoms == << <<1, 2>>, <<2, -1>>, <<4, 3>> >>
+SV2(u) == LET t == SV(u) IN <<t[1] + 2 * u[1] + (-6) * u[2] + 3 * u[4], t[2], t[3], t[4]>>
+ASSUME \A k \in DOMAIN Reg2Atoms : SV2(UAtom(Reg2Atoms[k][1])) = <<6 * Reg2Atoms[k][2], 0, 0, 0>>
+SVr(rg, u) == IF rg = 2 THEN SV2(u) ELSE SV(u)
+\* the registry the result unit of a binary operation is bound to: the left operand's (a bare left operand borrows the right one's)
+LeftRg(A, B) == IF A.k = "q" THEN A.rg ELSE B.rg
+\* complex data: a register with cx = TRUE holds n complex numbers as 2n rationals (real parts, then imaginary parts).
+\* add / subtract / negative act on the two halves separately; equal / not_equal combine the halves.
+ZeroV(n) == [i \in 1..n |-> RZero]
+Emb(X) == IF X.cx THEN X.v ELSE X.v \o ZeroV(Len(X.v))
+EmbR(X) == IF X.k = "x" THEN X ELSE [X EXCEPT !.v = Emb(X), !.cx = TRUE]
+CxCase(A, B) == A.cx \/ B.cx
+CxOps == {"add", "subtract", "equal", "not_equal", "negative", "positive"}
+ELen(X) == IF X.cx THEN Len(X.v) ELSE 2 * Len(X.v)
+
+(* ------------------------------------------------------------------------ *)
 (* property side: the reference result, expressed in a given unit `ur`       *)
-(* A, B : [k, u, v]   k = "q" quantity with unit u | "n" bare number(s)      *)
+(* A, B : [k, u, sv, rg, cx, v]  k = "q" quantity with unit u | "n" bare number(s) *)
 (*                    (u = UOne) | "b" bare result (bool / sign / trig)      *)
 (* returns [ok, v] : tuple of checked rationals, and the reference dimension *)
 (* ------------------------------------------------------------------------ *)
@@ -270,7 +295,7 @@ RefDim(op, meth, A, B, p) ==     \* [bare, d]
     [] op \in PowUn \cup {"power"} -> LET q == PowOf(op, p) IN [bare |-> FALSE, d |-> VDiv(VScale(DV(A.u), q[1]), q[2])]
 
 RefVals(op, meth, A, B, p, ur) ==
-  LET s0 == SV(A.u)  s1 == SV(B.u)  sr == SV(ur)  a == GV(A.v)  b == GV(B.v) IN
+  LET s0 == A.sv  s1 == B.sv  sr == ur.sv  a == GV(A.v)  b == GV(B.v) IN
   CASE op \in HomBin \cup {"divmod_r"} /\ meth \in {"call", "outer"} ->
          \* r * sr = f(a * s0, b * s1)   <=>   r = f(a, b * s1/s0) / (sr/s0)     (f homogeneous of degree 1)
          LET c1 == PVRat(VSub(s1, s0))  cr == PVRat(VSub(sr, s0)) IN
@@ -308,11 +333,22 @@ RefVals(op, meth, A, B, p, ur) ==
              ang(x) == IF A.u = UAtom(LatAtom) THEN CSub(G(R(90)), x) ELSE IF A.u = UAtom(LonAtom) THEN CAdd(x, G(R(180))) ELSE x IN
          Map1(LAMBDA x : TrigVal(op, CMul(ang(x), c)), a)
 
+FoldCmp(op, t) ==
+  LET n == Len(t) \div 2 IN
+  [i \in 1..n |-> IF ~(t[i].ok /\ t[n + i].ok) THEN Bad
+                  ELSE IF op = "equal" THEN G(IF t[i].v = ROne /\ t[n + i].v = ROne THEN ROne ELSE RZero)
+                  ELSE G(IF t[i].v = ROne \/ t[n + i].v = ROne THEN ROne ELSE RZero)]
+RefValsC(op, meth, A, B, p, ur) ==
+  IF ~CxCase(A, B) THEN RefVals(op, meth, A, B, p, ur)
+  ELSE LET t == RefVals(op, meth, EmbR(A), EmbR(B), p, ur) IN IF op \in CmpBin THEN FoldCmp(op, t) ELSE t
 \* is the step inside the claim?  (commensurable operands where the mathematics needs them)
 InClaim(op, meth, A, B) ==
   /\ op \in HomBin \cup CmpBin \cup DivMod \cup {"floor_divide"} => (B.k # "x" /\ SameDim(A, B))
   /\ op \in Trig => DV(A.u) = DAngle1 /\ (HasOffset(A.u) => A.u \in {UAtom(LatAtom), UAtom(LonAtom)})
   /\ op \notin Trig => ~(HasOffset(A.u) \/ HasOffset(B.u))
+  \* complex data: the operations that act on real and imaginary parts separately (ordering, remainders ... of complex
+  \* numbers are NumPy's business or undefined)
+  /\ CxCase(A, B) => (op \in CxOps /\ meth = "call" /\ (B.k = "x" \/ ELen(A) = ELen(B)))
 
 \* a number in radian is carried as a multiple of pi/12: an operation that floors RAW numbers of operands in different
 \* units (what the transcription of floor_divide / divmod does) cannot be followed through that change of variable
@@ -324,7 +360,8 @@ RadianRaw(op, A, B) == /\ A.u[RadianAtom] # 0 \/ B.u[RadianAtom] # 0
 SignedZeroFree(op, A, B) == op = "copysign" => \A i \in DOMAIN B.v : B.v[i][1] # 0
 \* away from the jump of a discontinuous operation (needed when an operand is only known to tolerance)
 Robust(op, meth, A, B) ==
-  LET c1 == PVRat(VSub(SV(B.u), SV(A.u)))  a == GV(A.v)  b == GV(B.v) IN
+  LET c1 == PVRat(VSub(B.sv, A.sv))  a == GV(A.v)  b == GV(B.v) IN
+  IF CxCase(A, B) THEN FALSE ELSE
   CASE op \in {"remainder", "fmod", "floor_divide", "divmod_q", "divmod_r"} ->
          \* neither the quotient of the quantities nor (what the transcription floors) the quotient of the raw numbers is integral
          LET t == Comb(LAMBDA x, y : CDiv(x, CMul(y, c1)), meth, a, b)
@@ -342,11 +379,12 @@ PVerdict(op, meth, A, B, p, Rs) ==
   \* a bare result is read as a dimensionless number of scale 1 (whether a pure number comes back as ndarray or as a
   \* dimensionless quantity is not C04's business; T is strict about it)
   LET rd == RefDim(op, meth, A, B, p)
-      ue == IF Rs.k = "b" THEN UOne ELSE Rs.u IN
+      R0 == IF Rs.k = "b" THEN [u |-> UOne, sv |-> SZero] ELSE [u |-> Rs.u, sv |-> Rs.sv]
+      ue == R0.u IN
   IF rd.bare /\ ue # UOne THEN "dim"
   ELSE IF ~rd.bare /\ DV(ue) # rd.d THEN "dim"
-  ELSE IF op \in LeftUnitOps /\ ue # A.u THEN "leftunit"
-  ELSE LET want == RefVals(op, meth, A, B, p, ue) IN
+  ELSE IF op \in LeftUnitOps /\ (ue # A.u \/ R0.sv # A.sv) THEN "leftunit"
+  ELSE LET want == RefValsC(op, meth, A, B, p, R0) IN
        IF ~AllOk(want) THEN "undecided"
        ELSE IF Len(want) # Len(Rs.v) THEN "value"
        ELSE IF \A i \in DOMAIN want : Rs.v[i] = want[i].v THEN "ok" ELSE "value"
@@ -391,24 +429,36 @@ Cancel(u) ==
 Cancellable(u) == (\E g \in 1..NG : GrpCount(u, g) # IAbs(GrpNet(u, g))) \/ GrpCount(u, 0) >= 12
 \* array.py:1977-1984 : a dimensionless result with scale != 1 of commensurable dimensioned operands is
 \* multiplied out and relabelled dimensionless
-Step6(u0, u1, u) == DV(u) = DZero3 /\ DV(u0) # DZero3 /\ DV(u0) = DV(u1) /\ SV(u) # <<0, 0, 0, 0>>
+Step6(u0, u1, u, sv) == DV(u) = DZero3 /\ DV(u0) # DZero3 /\ DV(u0) = DV(u1) /\ sv # SZero
 MulUnitIn(op, meth, A, B) ==
   CASE op \in {"multiply", "dot"} /\ meth # "reduce" -> UMul(A.u, B.u)
     [] op = "multiply" -> UPow(A.u, Len(A.v), 1)
     [] op \in {"divide", "floor_divide"} /\ meth # "reduce" -> UDiv(A.u, B.u)
     [] op = "divide" -> UPow(A.u, 2 - Len(A.v), 1)
-ImplUnit(op, meth, A, B, p) ==       \* canonical result unit of the transcription
+\* scale of the un-simplified result unit: the product / quotient / power of the scales the operands carry
+SVin(op, meth, A, B) ==
+  CASE op \in {"multiply", "dot"} /\ meth # "reduce" -> VAdd(A.sv, B.sv)
+    [] op = "multiply" -> VScale(A.sv, Len(A.v))
+    [] op \in {"divide", "floor_divide"} /\ meth # "reduce" -> VSub(A.sv, B.sv)
+    [] op = "divide" -> VScale(A.sv, 2 - Len(A.v))
+\* canonical result unit of the transcription and the scale it carries: [u, sv].  The coefficient that simplification
+\* takes out is valued by the symbol table of the registry the result unit is bound to (_cancel_mul(expr, registry));
+\* as_coeff_unit divides exactly that coefficient out of the CARRIED scale.
+ImplRes(op, meth, A, B, p) ==
   CASE op \in MulBin \cup {"dot"} /\ meth # "reduce" ->
          LET uin == MulUnitIn(op, meth, A, B)
-             c == IF Simple(uin) THEN Cancel(uin) ELSE uin IN
-         IF Step6(A.u, B.u, c) THEN UOne ELSE c
-    [] op \in MulBin -> MulUnitIn(op, meth, A, B)         \* reduce: unit ** n, no simplification
-    [] op \in PowUn \cup {"power"} -> LET q == PowOf(op, p) IN UPow(A.u, q[1], q[2])
-    [] OTHER -> A.u
+             c == IF Simple(uin) THEN Cancel(uin) ELSE uin
+             rg == LeftRg(A, B)
+             svc == VSub(SVin(op, meth, A, B), VSub(SVr(rg, uin), SVr(rg, c))) IN
+         IF Step6(A.u, B.u, c, svc) THEN [u |-> UOne, sv |-> SZero] ELSE [u |-> c, sv |-> svc]
+    [] op \in MulBin -> [u |-> MulUnitIn(op, meth, A, B), sv |-> SVin(op, meth, A, B)]         \* reduce: unit ** n, no simplification
+    [] op \in PowUn \cup {"power"} -> LET q == PowOf(op, p) IN [u |-> UPow(A.u, q[1], q[2]), sv |-> VDiv(VScale(A.sv, q[1]), q[2])]
+    [] OTHER -> [u |-> A.u, sv |-> A.sv]
+ImplUnit(op, meth, A, B, p) == ImplRes(op, meth, A, B, p).u
 ImplBare(op) == op \in CmpBin \cup Trig \cup {"sign"}
 \* the numbers the implementation computes, given the unit `ur` it labels them with
 ImplVals(op, meth, A, B, p, ur) ==
-  LET a == GV(A.v)  b == GV(B.v)  s0 == SV(A.u)  s1 == SV(B.u) IN
+  LET a == GV(A.v)  b == GV(B.v)  s0 == A.sv  s1 == B.sv IN
   CASE op \in HomBin \cup CmpBin /\ meth \in {"call", "outer"} ->
          \* operand 1 is multiplied by conv = scale(u1)/scale(u0); copysign is a pass-through rule (no rescale)
          LET c1 == IF op = "copysign" THEN G(ROne) ELSE PVRat(VSub(s1, s0)) IN
@@ -418,22 +468,25 @@ ImplVals(op, meth, A, B, p, ur) ==
     [] op \in {"add", "maximum", "minimum"} /\ meth = "accumulate" -> Accum(LAMBDA x, y : Elem(op, x, y), a)
     [] op \in MulBin /\ meth \in {"call", "outer"} ->
          \* raw ufunc, then post-multiplication by the coefficient cancelled out of the unit
-         LET c == PVRat(VSub(SV(MulUnitIn(op, meth, A, B)), SV(ur))) IN
+         LET c == PVRat(VSub(SVin(op, meth, A, B), ur.sv)) IN
          Comb(LAMBDA x, y : CMul(Elem(op, x, y), c), meth, a, b)
     [] op = "dot" ->
-         LET c == PVRat(VSub(SV(MulUnitIn(op, meth, A, B)), SV(ur))) IN
+         LET c == PVRat(VSub(SVin(op, meth, A, B), ur.sv)) IN
          <<CMul(FoldL(CAdd, Map2(CMul, a, b), Len(a)), c)>>
     [] op \in {"multiply", "divide"} /\ meth = "reduce" ->
          <<FoldL(LAMBDA x, y : Elem(op, x, y), a, Len(a))>>
     [] op \in HomUn \cup {"sign"} -> Map1(LAMBDA x : Elem1(op, x), a)
     [] op \in PowUn \cup {"power"} -> LET q == PowOf(op, p) IN Map1(LAMBDA x : CRoot(CPowInt(x, q[1]), q[2]), a)
-    [] op \in Trig -> RefVals(op, meth, A, B, p, UOne)       \* converts to radian first: same mathematics
+    [] op \in Trig -> RefVals(op, meth, A, B, p, [u |-> UOne, sv |-> SZero])       \* converts to radian first: same mathematics
+ImplValsC(op, meth, A, B, p, ur) ==
+  IF ~CxCase(A, B) THEN ImplVals(op, meth, A, B, p, ur)
+  ELSE LET t == ImplVals(op, meth, EmbR(A), EmbR(B), p, ur) IN IF op \in CmpBin THEN FoldCmp(op, t) ELSE t
 
 \* T on one observed step: "ok" | "unit" | "value" | "undecided"
 TVerdict(op, meth, A, B, p, Rs) ==
   \* floor_divide: the transcription also admits the repaired order of operations (fixes/C04-floor-divide-common-scale.patch:
   \* commensurable operands are brought to one unit BEFORE flooring; the result is dimensionless with scale 1)
-  IF op = "floor_divide" /\ A.k = "q" /\ B.k = "q" /\ SameDim(A, B) /\ A.u # B.u /\ Rs.k = "q" /\ Rs.u = UOne
+  IF op = "floor_divide" /\ A.k = "q" /\ B.k = "q" /\ SameDim(A, B) /\ (A.u # B.u \/ A.sv # B.sv) /\ Rs.k = "q" /\ Rs.u = UOne /\ Rs.sv = SZero
      /\ PVerdict(op, meth, A, B, p, Rs) = "ok" THEN "ok"
   ELSE IF ImplBare(op) # (Rs.k = "b") THEN "unit"
   ELSE LET unitok ==
@@ -445,16 +498,28 @@ TVerdict(op, meth, A, B, p, Rs) ==
                          \/ (Rs.u = UOne /\ DV(uin) = DZero3 /\ DV(A.u) # DZero3 /\ DV(A.u) = DV(B.u))
                          \* unyt_array.dot / np.dot / vdot / inner multiply the units without simplifying
                          \/ (op = "dot" /\ Rs.u = uin)
-                  ELSE Rs.u = ImplUnit(op, meth, A, B, p) IN
+                  ELSE Rs.u = ImplUnit(op, meth, A, B, p)
+           \* the scale the result unit carries
+           scaleok ==
+             IF ImplBare(op) THEN TRUE
+             ELSE IF op \in MulBin \cup {"dot"} /\ meth # "reduce" THEN
+                    LET uin == MulUnitIn(op, meth, A, B)  rg == LeftRg(A, B) IN
+                    IF ~Simple(uin) THEN TRUE
+                    ELSE \/ Rs.sv = VSub(SVin(op, meth, A, B), VSub(SVr(rg, uin), SVr(rg, Rs.u)))
+                         \/ (Rs.u = UOne /\ Rs.sv = SZero)
+                  ELSE Rs.sv = ImplRes(op, meth, A, B, p).sv IN
        IF ~unitok THEN "unit"
-       ELSE LET want == ImplVals(op, meth, A, B, p, IF ImplBare(op) THEN UOne ELSE Rs.u) IN
+       ELSE IF ~scaleok THEN "scale"
+       ELSE LET want == ImplValsC(op, meth, A, B, p, IF ImplBare(op) THEN [u |-> UOne, sv |-> SZero] ELSE [u |-> Rs.u, sv |-> Rs.sv]) IN
             IF ~AllOk(want) THEN "undecided"
             ELSE IF Len(want) # Len(Rs.v) THEN "value"
             ELSE IF \A i \in DOMAIN want : Rs.v[i] = want[i].v THEN "ok" ELSE "value"
 
-\* the transcription's own result (generator side): [ok, k, u, v]
+\* the transcription's own result (generator side): [ok, k, u, sv, rg, cx, v]
 ImplStep(op, meth, A, B, p) ==
-  LET u == IF ImplBare(op) THEN UOne ELSE ImplUnit(op, meth, A, B, p)
-      v == ImplVals(op, meth, A, B, p, u) IN
-  [ok |-> AllOk(v), k |-> IF ImplBare(op) THEN "b" ELSE "q", u |-> u, v |-> IF AllOk(v) THEN Strip(v) ELSE <<>>]
+  LET r == IF ImplBare(op) THEN [u |-> UOne, sv |-> SZero] ELSE ImplRes(op, meth, A, B, p)
+      v == ImplValsC(op, meth, A, B, p, r) IN
+  [ok |-> AllOk(v), k |-> IF ImplBare(op) THEN "b" ELSE "q", u |-> r.u, sv |-> r.sv,
+   rg |-> IF ImplBare(op) THEN 0 ELSE LeftRg(A, B), cx |-> CxCase(A, B) /\ ~ImplBare(op),
+   v |-> IF AllOk(v) THEN Strip(v) ELSE <<>>]
 =============================================================================
